@@ -53,7 +53,10 @@ ASSUMPTIONS = ["node names are interned to nat identifiers by the harness",
                "scores are dyadic rationals so float arithmetic of the deltas is exact"]
 
 
-NAMES = ["A", "B", "C", "D", "E", "F", "G", "H", "K", "foo", "bar", "x1", "x2", "Zz", "q"]
+FINDING_TAN_UNUSED = "tan-unused-class-category"
+
+NAMES = ["A", "B", "C", "D", "E", "F", "G", "H", "K", "foo", "bar", "x1", "x2", "Zz", "q",
+         "x10", "G2", "AB", "+", "-", "flip", "None", "0", "a b", "node", ""]  # substrings of each other, operation keywords, falsy
 
 
 def K(x):
@@ -73,13 +76,17 @@ def cases(tier, seed):
     for i in range(120 if nq else 400):
         out.append({"kind": "builtin", "seed": rng.randint(0, 10**9)})
     for i in range(40 if nq else 250):
-        out.append({"kind": "exh", "seed": rng.randint(0, 10**9), "n": rng.choice([2, 3, 3, 3, 4] if nq else [2, 3, 3, 4, 4])})
+        out.append({"kind": "exh", "seed": rng.randint(0, 10**9), "n": rng.choice([1, 2, 3, 3, 3, 3, 4] if nq else [1, 2, 3, 3, 4, 4])})
     for i in range(120 if nq else 900):
         out.append({"kind": "tree", "seed": rng.randint(0, 10**9)})
     for i in range(3 if nq else 12):
         out.append({"kind": "hc", "seed": rng.randint(0, 10**9), "foreign": True})
     for i in range(250 if nq else 2500):
         out.append({"kind": "session", "seed": rng.randint(0, 10**9)})
+    for i in range(60 if nq else 400):
+        out.append({"kind": "reject", "seed": rng.randint(0, 10**9)})
+    for i in range(80 if nq else 600):
+        out.append({"kind": "cache", "seed": rng.randint(0, 10**9)})
     rng.shuffle(out)
     return out
 
@@ -88,11 +95,21 @@ def shrink(case):
     return []
 
 
-def gen_names(rng, n):
-    if rng.random() < 0.75:
+def gen_names(rng, n, mixed_ok=False):
+    r = rng.random()
+    if r < 0.65 or (r < 0.75 and not mixed_ok):
         pool = list(NAMES)
         rng.shuffle(pool)
         return pool[:n]
+    if r < 0.75:  # int and str labels together (they do not sort against each other)
+        pool = list(NAMES[:12]) + list(range(0, 10))
+        rng.shuffle(pool)
+        out = pool[:n]
+        if n >= 2 and all(isinstance(x, str) for x in out):
+            out[0] = 0
+        if n >= 2 and all(isinstance(x, int) for x in out):
+            out[1] = "A"
+        return out
     pool = list(range(0, n + 4))
     rng.shuffle(pool)
     return pool[:n]
@@ -111,6 +128,10 @@ def gen_table(rng, n, style):
                     q = Fraction(rng.choice([-2, -1, 0, 0, 1, 1, 2, 3]), rng.choice([1, 1, 2]))
                 elif style == "flat":
                     q = Fraction(rng.choice([0, 0, 0, 1]) * min(r, 2), 1)
+                elif style == "fine":   # candidates differ by ~1e-9 .. 1e-6 (rounding "for stability" would merge them)
+                    q = Fraction(rng.randint(-2**10, 2**10), 2**30) + Fraction(rng.randint(-3, 3), 1)
+                elif style == "big":    # large magnitudes with small exact differences
+                    q = Fraction(-2**34, 1) + Fraction(rng.randint(-2**14, 2**14), 2**8)
                 else:  # "penal": generic reward minus a penalty growing with the number of parents
                     q = Fraction(rng.randint(-2**12, 2**12), 2**6) - Fraction(rng.randint(0, 40) * r, 1)
                 tab[(v, frozenset(ps))] = q
@@ -135,13 +156,13 @@ def as_form(rng, lst):
     return {"list": list, "set": set, "tuple": tuple}[f](lst), f
 
 
-def gen_hc(seed, foreign=False, n=None, names=None):
+def gen_hc(seed, foreign=False, n=None, names=None, mixed_ok=True):
     rng = random.Random(seed)
     if n is None:
-        n = rng.choice([2, 3, 3, 4, 4, 4, 5, 5, 6])
-        names = gen_names(rng, n)
+        n = rng.choice([2, 3, 3, 4, 4, 4, 5, 5, 6] * 4 + [1, 7, 8])
+        names = gen_names(rng, n, mixed_ok)
     o = {"n": n, "names": names}
-    o["tstyle"] = rng.choice(["generic", "generic", "penal", "ties", "ties", "flat"])
+    o["tstyle"] = rng.choice(["generic", "generic", "penal", "ties", "ties", "flat", "fine", "big"])
     o["tab"] = gen_table(rng, n, o["tstyle"])
     # start (start and fixed edges mostly agree on a hidden order, so that their union is acyclic)
     hidden = list(range(n))
@@ -163,7 +184,13 @@ def gen_hc(seed, foreign=False, n=None, names=None):
                            Fraction(5, 2), Fraction(-1, 2), Fraction(rng.randint(0, 64), 8)])
     if o["tstyle"] in ("ties", "flat") and rng.random() < 0.6:
         o["eps"] = rng.choice([Fraction(0), Fraction(1, 2), Fraction(1)])
+    if o["tstyle"] == "fine":
+        o["eps"] = rng.choice([Fraction(1, 2**31), Fraction(1, 2**24), Fraction(0), Fraction(1, 2**13)])
+    if o["white"] is not None and rng.random() < 0.1:
+        o["white"] = []   # an empty white list forbids every addition (not the same as None)
     o["max_iter"] = rng.choice([0, 1, 2, 3, 5, 10, 40, 40, 40, 40])
+    if n >= 7:
+        o["max_iter"] = rng.choice([1, 3, 6])
     if rng.random() < 0.85:
         o["prior"] = [Fraction(0)] * 3
     else:
@@ -209,6 +236,12 @@ def frame(names, rows=None, seed=0, card=2):
         _DF.clear()
     _DF[key] = df
     return df
+
+
+def frame_snapshot(df):
+    """everything observable about a frame: labels, dtypes, cell values"""
+    return ([K(c) for c in df.columns], [repr(i) for i in df.index], [str(t) for t in df.dtypes],
+            [[repr(x) for x in row] for row in df.itertuples(index=False, name=None)])
 
 
 def table_score(df, names, tab, prior):
@@ -400,10 +433,16 @@ def hc_round(o, est, df, drv, rseed, key, foreign=False):
     fidx = dict(idx)
     fidx[K("__nocolumn__")] = n + 7
     fixed_order = [(fidx[K(u)], fidx[K(v)]) for u, v in fixed_order_named]
+    import copy
+    arg_snap = copy.deepcopy((fixed_arg, black_arg, white_arg))
+    df_snap = frame_snapshot(df)
+    kwargs = dict(scoring_method=score, start_dag=start, fixed_edges=fixed_arg,
+                  tabu_length=o["tabu_length"], max_indegree=o["max_indegree"], black_list=black_arg,
+                  white_list=white_arg, epsilon=float(o["eps"]),
+                  max_iter=float(o["max_iter"]) if rng.random() < 0.2 else o["max_iter"],   # documented default is the float 1e6
+                  show_progress=rng.random() < 0.05)
     try:
-        res = est.estimate(scoring_method=score, start_dag=start, fixed_edges=fixed_arg,
-                           tabu_length=o["tabu_length"], max_indegree=o["max_indegree"], black_list=black_arg,
-                           white_list=white_arg, epsilon=float(o["eps"]), max_iter=o["max_iter"], show_progress=False)
+        res = est.estimate(**kwargs)
         err = None
     except ValueError:
         res, err = None, "value"
@@ -411,6 +450,26 @@ def hc_round(o, est, df, drv, rseed, key, foreign=False):
         now = (list(start.nodes()), list(start.edges()), {v: list(start.predecessors(v)) for v in start.nodes()})
         if now != snap:
             return bad("impl!=spec:start_dag-mutated", {"before": str(snap), "after": str(now)}, key=key, tags=tags)
+    if (fixed_arg, black_arg, white_arg) != arg_snap or [type(x) for x in (fixed_arg, black_arg, white_arg)] != [type(x) for x in arg_snap]:
+        return bad("impl!=spec:list-argument-mutated", {"before": str(arg_snap), "after": str((fixed_arg, black_arg, white_arg))}, key=key, tags=tags)
+    if frame_snapshot(df) != df_snap:
+        return bad("impl!=spec:data-frame-mutated", {}, key=key, tags=tags)
+    if res is not None and (res is start or not isinstance(res, type(start or res))):
+        return bad("impl!=spec:result-is-start_dag", {}, key=key, tags=tags)
+    if res is not None and o["bad"] != "foreign" and rng.random() < 0.2:
+        # result independence: wreck the returned graph, ask again with the very same argument objects
+        first = (list(res.nodes()), list(res.edges()))
+        res.remove_edges_from(list(res.edges()))
+        if len(names) >= 2:
+            res.add_edge(names[1], names[0])
+        res.add_node("__scribble__")
+        res2 = est.estimate(**kwargs)
+        if res2 is res or (list(res2.nodes()), list(res2.edges())) != first:
+            return bad("impl!=spec:result-not-independent", {"first": str(first), "second": str((list(res2.nodes()), list(res2.edges())))}, key=key, tags=tags)
+        if snap is not None and (list(start.nodes()), list(start.edges())) != snap[:2]:
+            return bad("impl!=spec:start_dag-mutated-through-result", {}, key=key, tags=tags)
+        res = res2
+        tags.append("result-independence")
     st, m = drv.call_e("c11_hc", [cfg_obj(n, fixed_order, o), table_obj(o["tab"]), m_nodes, [list(e) for e in m_edges]])
     if o["bad"] == "foreign":
         # a fixed edge naming a non-column is outside the property's domain (the option lists range over the
@@ -468,6 +527,91 @@ def hc_round(o, est, df, drv, rseed, key, foreign=False):
     return ok(nontrivial=len(trace) > 0, key=key, tags=tags)
 
 
+def case_reject(case, drv):
+    """calls that must be rejected (ValueError), interleaved with good calls on the SAME estimator: the object
+    must stay usable and give the model's result afterwards"""
+    import networkx as nx
+    from pgmpy.estimators import HillClimbSearch, K2Score
+    rng = random.Random(case["seed"])
+    o = gen_hc(rng.randint(0, 10**9))
+    o["bad"] = None
+    n, names = o["n"], o["names"]
+    df = frame(names)
+    est = HillClimbSearch(df, use_cache=rng.random() < 0.7)
+    key = common.canon_key(["reject", case["seed"]])
+    good = table_score(df, names, o["tab"], o["prior"])
+    plain = nx.DiGraph()
+    plain.add_nodes_from(names)
+    menu = [("scoring=int", dict(scoring_method=5)), ("scoring=k2score", dict(scoring_method="k2score")),
+            ("scoring=BicScore", dict(scoring_method="BicScore")), ("scoring=nope", dict(scoring_method="nope")),
+            ("scoring=class", dict(scoring_method=K2Score)),
+            ("start=nx.DiGraph", dict(scoring_method=good, start_dag=plain)),
+            ("start=edge-list", dict(scoring_method=good, start_dag=[])),
+            ("fixed=None", dict(scoring_method=good, fixed_edges=None)), ("fixed=5", dict(scoring_method=good, fixed_edges=5))]
+    tags = ["reject n=%d" % n]
+    for _ in range(rng.choice([1, 2, 3])):
+        name, kw = rng.choice(menu)
+        tags.append("reject " + name)
+        try:
+            r = est.estimate(show_progress=False, **kw)
+            return bad("impl!=spec:invalid-call-accepted", {"call": name, "result": str(list(r.edges()))}, key=key, tags=tags)
+        except ValueError:
+            pass
+    out = hc_round(o, est, df, drv, rng.randint(0, 10**9), key)
+    out["tags"] = tags + [t for t in out["tags"] if t.startswith(("exact", "error="))]
+    if not out["ok"]:
+        out["kind"] += "(after rejected calls)"
+    return out
+
+
+def case_cache(case, drv):
+    """ScoreCache / LRUCache transparency, eviction included: a wrapped table scorer answers every request
+    with the table's value, whatever the cache size and the request history; hits do not call the scorer"""
+    from pgmpy.estimators.ScoreCache import ScoreCache
+    rng = random.Random(case["seed"])
+    n = rng.choice([2, 3, 4])
+    names = gen_names(rng, n, True)
+    tab = gen_table(rng, n, rng.choice(["generic", "ties", "fine"]))
+    df = frame(names)
+    idx = {K(nm): i for i, nm in enumerate(names)}
+    base = table_score(df, names, tab, [0, 0, 0])
+    calls = []
+    orig = base.local_score
+    base.local_score = lambda v, ps: (calls.append((K(v), tuple(K(p) for p in ps))), orig(v, ps))[1]
+    size = rng.choice([1, 2, 3, 5, 8, 10000])
+    sc = ScoreCache(base, df, max_size=size)
+    key = common.canon_key(["cache", case["seed"]])
+    tags = ["cache size=%d" % size]
+    reqs = []
+    for _ in range(rng.choice([10, 30, 80])):
+        if reqs and rng.random() < 0.5:
+            reqs.append(rng.choice(reqs[-6:]))       # a recent request again
+        else:
+            v = rng.randrange(n)
+            rest = [u for u in range(n) if u != v]
+            ps = rng.sample(rest, rng.randint(0, len(rest)))
+            reqs.append((v, tuple(ps)))
+    lru = []   # reference LRU over (variable, parent TUPLE) keys
+    for i, (v, ps) in enumerate(reqs):
+        before = len(calls)
+        got = sc.local_score(names[v], [names[p] for p in ps])
+        if Fraction(got) != tab[(v, frozenset(ps))]:
+            return bad("impl!=spec:cache-not-transparent", {"request": i, "variable": v, "parents": list(ps), "impl": got,
+                                                            "table": str(tab[(v, frozenset(ps))]), "size": size}, key=key, tags=tags)
+        k = (v, ps)
+        hit = k in lru
+        if hit:
+            lru.remove(k)
+        lru.append(k)
+        if len(lru) > size:
+            lru.pop(0)
+        if (len(calls) - before) != (0 if hit else 1):
+            return bad("impl!=spec:cache-hit-pattern", {"request": i, "expected_hit": hit, "scorer_calls": len(calls) - before,
+                                                        "size": size}, key=key, tags=tags)
+    tags.append("cache evictions=%d" % (1 if len(set(reqs)) > size else 0))
+    return ok(nontrivial=len(set(reqs)) > 1, key=key, tags=tags)
+
+
 def case_legal(case, drv):
     from pgmpy.estimators import HillClimbSearch
     from pgmpy.base import DAG
@@ -485,7 +629,7 @@ def case_legal(case, drv):
     # tabu list: arbitrary operations, biased to ones that matter
     tabu = []
     kinds = ["+", "-", "flip"]
-    for _ in range(rng.choice([0, 0, 1, 2, 4, 8])):
+    for _ in range(rng.choice([0, 0, 1, 2, 4, 8]) if n >= 2 else 0):
         k = rng.choice(kinds)
         if es and rng.random() < 0.6:
             u, v = rng.choice(es)
@@ -522,12 +666,63 @@ def case_legal(case, drv):
     return ok(nontrivial=len(es) > 0 or len(got) > 0, key=key, tags=tags)
 
 
+def vary_frame(rng, df, tags, allow_const=True):
+    """the same observations in another pandas dress: index labels (never data), dtypes, state values"""
+    import pandas as pd
+    df = df.copy()
+    m = len(df)
+    ik = rng.choice(["range", "range", "shifted", "permuted", "gapped", "duplicate", "string", "negative"])
+    if ik == "shifted":
+        df.index = range(7, 7 + m)
+    elif ik == "permuted":
+        lab = list(range(m))
+        rng.shuffle(lab)
+        df.index = lab
+    elif ik == "gapped":
+        df.index = sorted(rng.sample(range(5 * m), m))
+    elif ik == "duplicate":
+        df.index = [rng.randrange(3) for _ in range(m)]
+    elif ik == "string":
+        lab = ["r%d" % i for i in range(m)]
+        rng.shuffle(lab)
+        df.index = lab
+    elif ik == "negative":
+        df.index = range(-m, 0)
+    tags.append("index=" + ik)
+    for c in df.columns:
+        vals = sorted(set(df[c]))
+        vk = rng.choice(["asis", "asis", "one-based", "reversed", "gapped", "bool", "cat", "cat-unused", "cat-reordered", "const"])
+        if vk == "bool" and len(vals) != 2:
+            vk = "one-based"
+        if vk == "const" and not allow_const:
+            vk = "asis"
+        if vk == "one-based":
+            df[c] = df[c].map({v: v + 1 for v in vals})
+        elif vk == "reversed":          # integer state names that are not their positions
+            df[c] = df[c].map({v: vals[len(vals) - 1 - i] for i, v in enumerate(vals)})
+        elif vk == "gapped":
+            df[c] = df[c].map({v: 10 * v - 3 for v in vals})
+        elif vk == "bool":
+            df[c] = df[c].map({vals[0]: False, vals[1]: True}).astype(bool)
+        elif vk == "cat":
+            df[c] = pd.Categorical(df[c], categories=vals)
+        elif vk == "cat-unused":        # a declared category that never occurs
+            df[c] = pd.Categorical(df[c], categories=vals + [max(vals) + 5])
+        elif vk == "cat-reordered":
+            df[c] = pd.Categorical(df[c], categories=list(reversed(vals)))
+        elif vk == "const":             # cardinality 1
+            df[c] = vals[0]
+        tags.append("column=" + vk)
+    return df
+
+
 def case_builtin(case, drv):
-    from pgmpy.estimators import HillClimbSearch, K2Score, BDeuScore, BDsScore, BicScore, AICScore
+    from pgmpy.estimators import (HillClimbSearch, K2Score, BDeuScore, BDsScore, BicScore, AICScore,
+                                  BicScoreGauss, AICScoreGauss)
     rng = random.Random(case["seed"])
-    o = gen_hc(rng.randint(0, 10**9))
+    o = gen_hc(rng.randint(0, 10**9), mixed_ok=False)
     while o["n"] > 5 or not isinstance(o["names"][0], str):  # integer column labels break pandas unstack in the built-in scores
-        o = gen_hc(rng.randint(0, 10**9))
+        o = gen_hc(rng.randint(0, 10**9), mixed_ok=False)
     o["bad"] = None
     n, names = o["n"], o["names"]
     idx = {K(nm): i for i, nm in enumerate(names)}
@@ -546,14 +741,42 @@ def case_builtin(case, drv):
     for c in range(n):
         for s in range(cards[c]):
             rows[(c * 3 + s) % len(rows)][c] = s
-    df = frame(names, rows=rows)
-    method = rng.choice(["k2", "bdeu", "bdeu", "bds", "bds", "bic", "aic"])
-    cls = {"k2": K2Score, "bdeu": BDeuScore, "bds": BDsScore, "bic": BicScore, "aic": AICScore}[method]
+    method = rng.choice(["k2", "bdeu", "bdeu", "bds", "bds", "bic", "aic", "bic-g", "aic-g"])
+    cls = {"k2": K2Score, "bdeu": BDeuScore, "bds": BDsScore, "bic": BicScore, "aic": AICScore,
+           "bic-g": BicScoreGauss, "aic-g": AICScoreGauss}[method]
+    tags = ["builtin n=%d" % n, "method=" + method]
+    import pandas as pd
+    if method.endswith("-g") and not all(nm.isidentifier() and nm not in ("None",) for nm in names):
+        # the Gaussian scores paste column names into a statsmodels formula: identifiers only
+        method, cls = "bic", BicScore
+        tags[-1] = "method=bic"
+    df = pd.DataFrame(rows, columns=list(names))
+    if method.endswith("-g"):
+        df = df.astype(float) + pd.DataFrame([[rng.randint(-8, 8) / 16.0 for _ in names] for _ in rows], columns=list(names))
+        if n > 4:
+            df = df[list(names[:4])]
+            n, names = 4, names[:4]
+            o = gen_hc(rng.randint(0, 10**9), n=n, names=names)
+            o["bad"] = None
+            idx = {K(nm): i for i, nm in enumerate(names)}
+    else:
+        df = vary_frame(rng, df, tags)
+    est_kw = {}
+    if not method.endswith("-g") and rng.random() < 0.2:
+        # declared state names with a state that is never observed, in a non-sorted order
+        est_kw["state_names"] = {}
+        for c in names:
+            st = list(pd.unique(df[c]))
+            rng.shuffle(st)
+            est_kw["state_names"][c] = st + ([max(st) + 11] if not isinstance(st[0], (bool,)) and rng.random() < 0.5 else [])
+        tags.append("state_names=given")
+    df_snap = frame_snapshot(df)
     # ONE estimator object, 1-3 estimate() calls: same scorer class, different hyper-parameters and options;
     # every result is judged against a FRESH scorer with the requested hyper-parameters
-    est = HillClimbSearch(df, use_cache=rng.random() < 0.85)
+    use_cache = rng.random() < 0.85
+    est = HillClimbSearch(df, use_cache=use_cache, **est_kw)
     rounds = rng.choice([1, 2, 2, 3])
-    tags = ["builtin n=%d" % n, "method=" + method, "builtin rounds=%d" % rounds]
+    tags.append("builtin rounds=%d" % rounds)
     nontrivial = False
     ess_pool = [1, 200, 5, 50]
     rng.shuffle(ess_pool)
@@ -563,19 +786,44 @@ def case_builtin(case, drv):
             o2["bad"] = None
             o = o2
         kw = {"equivalent_sample_size": ess_pool[r]} if method in ("bdeu", "bds") else {}
-        oracle = cls(df, **kw)
-        scoring = cls(df, **kw) if (kw or rng.random() < 0.5) else method
+        as_instance = bool(kw) or rng.random() < 0.5
+        # a scorer named by a string is built by estimate() from the data alone (no state_names)
+        oracle = cls(df, **kw, **(est_kw if as_instance else {}))
+        scoring = cls(df, **kw, **est_kw) if as_instance else (method.upper() if rng.random() < 0.3 else method)
         o["eps"] = rng.choice([Fraction(1, 10000), Fraction(1, 100), Fraction(1), Fraction(0)])
         o["max_iter"] = rng.choice([1, 3, 1000, 1000, 1000])
         o["tabu_length"] = rng.choice([0, 0, 0, 2, 100])
+        if o["eps"] == 0 or o["tabu_length"] != 0:
+            o["max_iter"] = min(o["max_iter"], 30)   # zero-gain moves or tabu walks may run until max_iter
+        defaults = method == "k2" and not as_instance and rng.random() < 0.3
+        if defaults:   # every documented default: k2, no start, no lists, tabu 100, epsilon 1e-4, max_iter 1e6
+            o = dict(o, start=None, fixed=[], black=[], white=None, max_indegree=None, tabu_length=100,
+                     eps=Fraction(1, 10000), max_iter=10**6)
+            call = dict(show_progress=False)
+            tags.append("all-defaults")
+        else:
+            call = dict(scoring_method=scoring, start_dag=None, fixed_edges=[(names[u], names[v]) for u, v in o["fixed"]],
+                        tabu_length=o["tabu_length"], max_indegree=o["max_indegree"],
+                        black_list=[(names[u], names[v]) for u, v in o["black"]],
+                        white_list=None if o["white"] is None else [(names[u], names[v]) for u, v in o["white"]],
+                        epsilon=float(o["eps"]), max_iter=o["max_iter"], show_progress=False)
         start = build_start(o, names)
+        if not defaults:
+            call["start_dag"] = start
         start_e = [] if start is None else o["start"][1]
         try:
-            res = est.estimate(scoring_method=scoring, start_dag=start, fixed_edges=[(names[u], names[v]) for u, v in o["fixed"]],
-                               tabu_length=o["tabu_length"], max_indegree=o["max_indegree"],
-                               black_list=[(names[u], names[v]) for u, v in o["black"]],
-                               white_list=None if o["white"] is None else [(names[u], names[v]) for u, v in o["white"]],
-                               epsilon=float(o["eps"]), max_iter=o["max_iter"], show_progress=False)
+            res = est.estimate(**call)
+            if r == 0 and rng.random() < 0.5:
+                # the index is never data: the same observations under a RangeIndex give the same graph
+                twin = HillClimbSearch(df.reset_index(drop=True), use_cache=use_cache, **est_kw)
+                call2 = dict(call)
+                if as_instance:
+                    call2["scoring_method"] = cls(df.reset_index(drop=True), **kw, **est_kw)
+                res0 = twin.estimate(**call2)
+                if (list(res0.nodes()), list(res0.edges())) != (list(res.nodes()), list(res.edges())):
+                    return bad("impl!=spec:builtin-index-is-data", {"with_index": str(list(res.edges())), "range_index": str(list(res0.edges())),
+                                                                     "method": method}, key=key, tags=tags)
+                tags.append("index-twin")
         except ValueError:
             if is_acyclic(range(n), set(start_e) | set(o["fixed"])):
                 return bad("impl!=spec:builtin-unexpected-valueerror", {"round": r}, key=key, tags=tags)
@@ -602,6 +850,8 @@ def case_builtin(case, drv):
         if c:
             return bad("impl!=spec:builtin-" + c[0], dict(c[1], method=method, kw=str(kw), round=r, impl_edges=g_edges), key=key, tags=tags)
         nontrivial = nontrivial or len(g_edges) > 0
+    if frame_snapshot(df) != df_snap:
+        return bad("impl!=spec:data-frame-mutated", {"method": method}, key=key, tags=tags)
     return ok(nontrivial=nontrivial, key=key, tags=tags)
 
 
@@ -609,11 +859,15 @@ def case_exh(case, drv):
     from pgmpy.estimators import ExhaustiveSearch
     rng = random.Random(case["seed"])
     n = case["n"]
-    names = sorted(gen_names(rng, n), key=lambda x: x) if rng.random() < 2 else None
-    # all_dags sorts the names; interning follows the sorted order so that model order = python order
-    tstyle = rng.choice(["generic", "generic", "ties", "penal"])
+    names = sorted(gen_names(rng, n))
+    # all_dags sorts the names; interning follows the sorted order so that model order = python order;
+    # the frame's columns come in another order
+    tstyle = rng.choice(["generic", "generic", "ties", "penal", "fine", "big"])
     tab = gen_table(rng, n, tstyle)
-    df = frame(names)
+    cols = list(names)
+    rng.shuffle(cols)
+    df = frame(cols)
+    df_snap = frame_snapshot(df)
     idx = {K(nm): i for i, nm in enumerate(names)}
     key = common.canon_key(["exh", case["seed"], n])
     score = table_score(df, names, tab, [0, 0, 0])
@@ -631,11 +885,28 @@ def case_exh(case, drv):
         if got != exp:
             return bad("impl!=model:all_scores", {"impl": str(got[:5]), "model": str(exp[:5])}, key=key, tags=tags)
         tags.append("all_scores")
+    # all_dags(nodes=...) with an explicit node list: taken in the GIVEN order, not sorted
+    if n >= 2:
+        sub = rng.sample(range(n), rng.randint(1, n))
+        _, allsub = drv.call("c11_exh", [sub, table_obj(tab)])
+        dsub = [sorted((idx[K(u)], idx[K(v)]) for u, v in d.edges()) for d in es.all_dags(nodes=[names[i] for i in sub])]
+        if dsub != [sorted(tuple(e) for e in edges) for _, edges in allsub]:
+            return bad("impl!=model:all_dags(nodes)", {"nodes": sub, "impl_count": len(dsub), "model_count": len(allsub)}, key=key, tags=tags)
+        tags.append("all_dags(nodes)")
     r = es.estimate()
-    r_again = es.estimate()  # same object, second call
-    if sorted(r.edges()) != sorted(r_again.edges()):
-        return bad("impl!=spec:exh-second-call-differs", {}, key=key, tags=tags)
+    first = (list(r.nodes()), list(r.edges()))
+    if first != (sorted(r.nodes()), sorted(r.edges())):
+        return bad("impl!=spec:exh-result-not-sorted", {"impl": str(first)}, key=key, tags=tags)
+    # result independence: scribble on the returned graph, same object asked again
     got = sorted((idx[K(u)], idx[K(v)]) for u, v in r.edges())
+    r.remove_edges_from(list(r.edges()))
+    r.add_node("__scribble__")
+    r_again = es.estimate()
+    if r_again is r or (list(r_again.nodes()), list(r_again.edges())) != first:
+        return bad("impl!=spec:exh-second-call-differs", {"first": str(first), "second": str(list(r_again.edges()))}, key=key, tags=tags)
+    if frame_snapshot(df) != df_snap:
+        return bad("impl!=spec:data-frame-mutated", {}, key=key, tags=tags)
+    r = r_again
     mx = max(q for q, _ in allm)
     if sorted(idx[K(v)] for v in r.nodes()) != list(range(n)) or not is_acyclic(range(n), got):
         return bad("impl!=spec:exh-not-a-dag-on-the-variables", {"impl": got}, key=key, tags=tags)
@@ -650,6 +921,36 @@ def case_exh(case, drv):
         return bad("impl!=model:exh-estimate", {"impl": got, "model": best[0][0]}, key=key, tags=tags)
     if sum(1 for q, _ in allm if q == mx) > 1:
         tags.append("tied-maximum(first wins)")
+    # default scorer (K2 through a ScoreCache) on real data in pandas dress: a global maximiser of K2
+    if n <= 3 and isinstance(names[0], str) and case["seed"] % 2 == 0:
+        import pandas as pd
+        from pgmpy.estimators import K2Score
+        rows = [[rng.randrange(2 + (c == 0)) for c in range(n)] for _ in range(24)]
+        for rw in rows:
+            if n >= 2 and rng.random() < 0.7:
+                rw[1] = rw[0] % 2
+        for c in range(n):
+            for st in range(2 + (c == 0)):
+                rows[(3 * c + st) % 24][c] = st
+        d2 = vary_frame(rng, pd.DataFrame(rows, columns=cols), tags, allow_const=False)
+        rk = ExhaustiveSearch(d2).estimate()
+        oracle = K2Score(d2)
+        cache = {}
+
+        def k2_total(E):
+            t = 0.0
+            for v in range(n):
+                k = (v, frozenset(u for (u, w) in E if w == v))
+                if k not in cache:
+                    cache[k] = oracle.local_score(names[v], [names[u] for u in sorted(k[1])])
+                t += cache[k]
+            return t
+        gk = sorted((idx[K(u)], idx[K(v)]) for u, v in rk.edges())
+        best_k2 = max(k2_total(e) for e in common.all_dags(n))
+        if sorted(idx[K(v)] for v in rk.nodes()) != list(range(n)) or not is_acyclic(range(n), gk) \
+                or k2_total(gk) < best_k2 - 1e-9 * max(1.0, abs(best_k2)):
+            return bad("impl!=spec:exh-default-scorer-not-global-max", {"impl": gk, "score": k2_total(gk), "max": best_k2}, key=key, tags=tags)
+        tags.append("default-scorer(k2)")
     return ok(nontrivial=n >= 3, key=key, tags=tags)
 
 
@@ -657,8 +958,8 @@ def case_tree(case, drv):
     import numpy as np
     from pgmpy.estimators import TreeSearch
     rng = random.Random(case["seed"])
-    n = rng.choice([2, 3, 4, 4, 5, 5, 6, 6])
-    names = gen_names(rng, n)
+    n = rng.choice([2, 3, 4, 4, 5, 5, 6, 6] * 3 + [1])
+    names = gen_names(rng, n, True)
     idx = {K(nm): i for i, nm in enumerate(names)}
     key = common.canon_key(["tree", case["seed"]])
     cards = [rng.choice([2, 2, 3, 4]) for _ in range(n)]
@@ -675,14 +976,23 @@ def case_tree(case, drv):
     for c in range(n):
         for s in range(cards[c]):
             rows[(c * 4 + s) % len(rows)][c] = s
-    df = frame(names, rows=rows)
-    mode = rng.choice(["mutual_info", "mutual_info", "normalized_mutual_info", "table", "table-ties", "table-neg0"])
+    import pandas as pd
+    plain = pd.DataFrame(rows, columns=list(names))
+    vtags = []
+    df = vary_frame(rng, plain, vtags, allow_const=rng.random() < 0.1)
+    df_snap = frame_snapshot(df)
+    mode = rng.choice(["mutual_info", "mutual_info", "mutual_info", "normalized_mutual_info", "adjusted_mutual_info",
+                       "table", "table-ties", "table-neg0", "table-tiny", "table-huge"])
     if mode.startswith("table"):
         wt = {}
         for i in range(n):
             for j in range(i + 1, n):
                 if mode == "table":
                     w = Fraction(rng.randint(1, 2**16), 2**8)
+                elif mode == "table-tiny":      # ~1e-18 .. 1e-13, all different
+                    w = Fraction(rng.randint(1, 2**16), 2**76)
+                elif mode == "table-huge":      # ~1e15 .. 1e20, neighbours differ in the last bits
+                    w = Fraction(2**50 + rng.randint(1, 2**16), 1) * rng.choice([1, 2**16])
                 elif mode == "table-ties":
                     w = Fraction(rng.choice([1, 1, 2, 3]), 2)
                 else:
@@ -696,30 +1006,87 @@ def case_tree(case, drv):
     else:
         fn = mode
     kind = "tan" if n >= 3 and rng.random() < 0.3 else "chow-liu"
-    tags = ["tree n=%d" % n, "weights=" + mode, "type=" + kind]
+    tags = ["tree n=%d" % n, "weights=" + mode, "type=" + kind] + vtags
     cls = rng.randrange(n) if kind == "tan" else None
-    if kind == "tan":
-        W = TreeSearch._get_conditional_weights(df, names[cls], fn, 1, False)
-        keep = [i for i in range(n) if i != cls]
-    else:
-        W = TreeSearch._get_weights(df, fn, 1, False)
-        keep = list(range(n))
-    if not np.array_equal(W, W.T):
+    n_jobs = 2 if rng.random() < 0.03 else 1
+    show = rng.random() < 0.05
+
+    def weights_of(frame_):
+        if kind == "tan":
+            return TreeSearch._get_conditional_weights(frame_, names[cls], fn, n_jobs, show)
+        return TreeSearch._get_weights(frame_, fn, n_jobs, show)
+    try:
+        W = weights_of(df)
+    except ValueError as e:
+        col = df.iloc[:, cls] if cls is not None else None
+        if (kind == "tan" and col is not None and str(col.dtype) == "category"
+                and len(col.cat.categories) > col.nunique() and "math domain" in str(e)):
+            # narrow diagnosis of one known class: TAN, class column categorical with a declared, unobserved category
+            return bad("impl!=spec:tan-crashes-on-unused-class-category",
+                       {"class_column": K(names[cls]), "categories": [repr(x) for x in col.cat.categories],
+                        "observed": sorted(repr(x) for x in col.unique()), "error": str(e)},
+                       finding=FINDING_TAN_UNUSED, key=key, tags=tags + ["tan-unused-class-category"])
+        raise
+    keep = [i for i in range(n) if i != cls]
+    if W.shape != (n, n) or not np.array_equal(W, W.T) or any(W[i, i] != 0 for i in range(n)):
         return bad("impl!=spec:weights-not-symmetric", {}, key=key, tags=tags)
+    # the weight matrix against an oracle that never saw pandas: the score table, or mutual information computed
+    # from the raw observation rows (labels, dtypes and the index are not data)
+    import math
+
+    def mi(rws, i, j):
+        m = len(rws)
+        cij, ci, cj = {}, {}, {}
+        for rw in rws:
+            cij[(rw[i], rw[j])] = cij.get((rw[i], rw[j]), 0) + 1
+            ci[rw[i]] = ci.get(rw[i], 0) + 1
+            cj[rw[j]] = cj.get(rw[j], 0) + 1
+        return sum(c / m * math.log(c * m / (ci[a] * cj[b])) for (a, b), c in cij.items())
+    const_cols = [c for c in range(n) if df.iloc[:, c].nunique() == 1]
+    orows = [[(0 if c in const_cols else rw[c]) for c in range(n)] for rw in rows]
+    for i in range(n):
+        for j in range(i + 1, n):
+            if mode.startswith("table"):
+                exp = float(wt[(i, j)])
+                exact = kind != "tan"
+            elif mode == "mutual_info":
+                if kind == "tan":
+                    exp = 0.0
+                    for cv in sorted(set(rw[cls] for rw in orows)):
+                        part = [rw for rw in orows if rw[cls] == cv]
+                        exp += len(part) / len(orows) * mi(part, i, j)
+                else:
+                    exp = mi(orows, i, j)
+                exact = False
+            else:
+                continue
+            if kind == "tan" and cls in (i, j):
+                continue
+            got_w = float(W[i, j])
+            if (exact and Fraction(got_w) != wt[(i, j)]) or (not exact and abs(got_w - exp) > 1e-9 * max(abs(exp), 1e-300) + 1e-13 * (not mode.startswith("table"))):
+                return bad("impl!=spec:weights-matrix", {"pair": [i, j], "impl": got_w, "expected": exp, "mode": mode, "type": kind}, key=key, tags=tags)
+    if not mode.startswith("table") and n >= 2:
+        # ... and against pgmpy itself on the plain frame, and with the rows in another order
+        Wp = weights_of(plain)
+        perm = list(range(len(rows)))
+        rng.shuffle(perm)
+        Ws = weights_of(df.iloc[perm])
+        for A, what in ((Wp, "plain-frame"), (Ws, "row-order")):
+            if const_cols and what == "plain-frame":
+                continue
+            if not np.allclose(A, W, rtol=1e-9, atol=1e-12):
+                return bad("impl!=spec:weights-depend-on-" + what, {"mode": mode, "type": kind}, key=key, tags=tags)
     G = [[[i, j], Fraction(float(W[i, j]))] for i in keep for j in keep if i < j and W[i, j] != 0]
-    if mode.startswith("table") and kind != "tan":
-        for (i, j), q in ((tuple(e), q) for e, q in G):
-            if q != wt[(i, j)]:
-                return bad("impl!=spec:weights-matrix", {"pair": [i, j], "impl": str(q), "table": str(wt[(i, j)])}, key=key, tags=tags)
     ws = [q for _, q in G]
     tags.append("distinct-weights" if len(set(ws)) == len(ws) else "tied-weights")
     roots = keep + ([None] if kind != "tan" or True else [])
     checked = 0
+    mst_memo = {}
     for root in roots:
-        ts = TreeSearch(df, root_node=None if root is None else names[root], n_jobs=1)
+        ts = TreeSearch(df, root_node=None if root is None else names[root], n_jobs=n_jobs)
         try:
             D = ts.estimate(estimator_type=kind, class_node=None if cls is None else names[cls],
-                            edge_weights_fn=fn, show_progress=False)
+                            edge_weights_fn=fn, show_progress=show)
         except ValueError:
             # automatic root may be the class node
             if kind == "tan" and root is None and K(ts.root_node) == K(names[cls]):
@@ -744,10 +1111,16 @@ def case_tree(case, drv):
             if any(cls in e for e in edges):
                 return bad("impl!=spec:tan-edge-into-class", {"edges": edges, "class": cls}, key=key, tags=tags)
         T = sorted({(min(u, v), max(u, v)) for u, v in edges})
-        chk, span, orient = drv.call("c11_tree", [keep, G, [list(e) for e in T], root])
+        # optimality depends on the tree only: one run of the proved checker per distinct tree; orientation per root
+        tk = tuple(T)
+        if tk not in mst_memo:
+            mst_memo[tk] = drv.call("c11_tree", [keep, G, [list(e) for e in T], root])[:2]
+        chk, span = mst_memo[tk]
+        orient = drv.call("c11_bfs", [keep, [list(e) for e in T], root])
         # is the weight graph connected at all?  (outside the property's scope if not)
-        full = drv.call("c11_tree", [keep, G, [e for e, _ in G], root])
-        connected = len(full[2]) == len(keep) - 1
+        if "conn" not in mst_memo:
+            mst_memo["conn"] = len(drv.call("c11_bfs", [keep, [e for e, _ in G], root])) == len(keep) - 1
+        connected = mst_memo["conn"]
         if not connected:
             tags.append("weight-graph-disconnected(out of scope)")
             continue
@@ -766,6 +1139,18 @@ def case_tree(case, drv):
         if indeg[root] != 0 or any(indeg[v] != 1 for v in keep if v != root):
             return bad("impl!=spec:orientation", {"edges": edges, "root": root}, key=key, tags=tags)
         checked += 1
+        if rng.random() < 0.3:
+            # result independence: scribble on the returned DAG, ask the same object again
+            first = sorted(D.edges(), key=str)
+            D.remove_edges_from(list(D.edges()))
+            D.add_node("__scribble__")
+            D2 = ts.estimate(estimator_type=kind, class_node=None if cls is None else names[cls],
+                             edge_weights_fn=fn, show_progress=False)
+            if D2 is D or sorted(D2.edges(), key=str) != first or "__scribble__" in D2.nodes():
+                return bad("impl!=spec:tree-result-not-independent", {"first": str(first), "second": str(list(D2.edges()))}, key=key, tags=tags)
+            tags.append("result-independence")
+    if frame_snapshot(df) != df_snap:
+        return bad("impl!=spec:data-frame-mutated", {}, key=key, tags=tags)
     # the same TreeSearch object reused with ANOTHER weight function: the second tree must be optimal for the
     # second weights (nothing of the first call may be remembered)
     if kind == "chow-liu" and n >= 3:
@@ -787,6 +1172,16 @@ def case_tree(case, drv):
         if not (chk and span) or sorted(e2) != sorted(tuple(e) for e in orient):
             return bad("impl!=spec:tree-reused-object", {"edges": e2, "G2": str(G2), "root": r0, "mst_chk": chk}, key=key, tags=tags)
         tags.append("tree-object-reused")
+        # the same with an automatically chosen root: whatever root the object reports, the second tree is optimal for
+        # the second weights and points away from that root
+        ta = TreeSearch(df, n_jobs=1)
+        ta.estimate(estimator_type="chow-liu", edge_weights_fn=fn, show_progress=False)
+        D3 = ta.estimate(estimator_type="chow-liu", edge_weights_fn=fn2, show_progress=False)
+        e3 = [(idx[K(u)], idx[K(v)]) for u, v in D3.edges()]
+        T3 = sorted({(min(u, v), max(u, v)) for u, v in e3})
+        chk, span, orient = drv.call("c11_tree", [list(range(n)), G2, [list(e) for e in T3], idx[K(ta.root_node)]])
+        if not (chk and span) or sorted(e3) != sorted(tuple(e) for e in orient):
+            return bad("impl!=spec:tree-reused-object(auto root)", {"edges": e3, "root": idx[K(ta.root_node)], "mst_chk": chk}, key=key, tags=tags)
     # argument checks
     for kw in ({"estimator_type": "nope"}, {"estimator_type": "tan"}, {"estimator_type": "tan", "class_node": "__none__"}):
         try:
@@ -810,6 +1205,10 @@ def run_case(case, drv):
         return case_hc(case, drv)
     if k == "session":
         return case_session(case, drv)
+    if k == "reject":
+        return case_reject(case, drv)
+    if k == "cache":
+        return case_cache(case, drv)
     if k == "legal":
         return case_legal(case, drv)
     if k == "builtin":
